@@ -99,11 +99,14 @@ Section SynValues.
     mkFm None None None None None (Some (parse_lit_str g)) (Some (expr_type_from_expr g kind))
          None None None.
 
-  (** [Callable]: path or closure, no group transparency, no string form. *)
-  Definition callable_from_expr (e : expr) : res value :=
+  (** [Callable]: path or closure, through invisible groups; no string form. *)
+  Fixpoint callable_from_expr (e : expr) : res value :=
     if (str_eqb (expr_type_name e) "path" || str_eqb (expr_type_name e) "closure")%bool
     then Ok (VToks (i_toks (einfo e)))
-    else Err (unexpected_expr_type e).
+    else match e with
+         | EGroup _ g => callable_from_expr g
+         | _ => Err (unexpected_expr_type e)
+         end.
   Definition callable_fm : fm :=
     mkFm None None None None None None (Some callable_from_expr) None None None.
 
@@ -134,7 +137,7 @@ Section SynValues.
     match l with
     | LStr s =>
         match reparse_arr s with
-        | Some (EArray _ es) => of_array es
+        | Some (EArray _ es) => of_array (map (respan_expr (i_span i)) es)
         | Some _ => Panic "model: reparse_arr did not return an array"
         | None => Err (unknown_lit_str_value i s)
         end
